@@ -13,7 +13,7 @@ LIFE_UNW = [("snprintf", r"for \(int i = 0; i < VK_SNPRINTF_MAX", 26), ("snprint
             ("detect_alphabet", r"i < 128;", 129), ("detect_alphabet", r"i < 12;", 14), ("detect_alphabet", r"i < 40;", 42), ("aln_param_init", r"= 23", 25),
             ("set_subm_gaps_CorBLOSUM66_13plus", r"< 23", 25), ("set_subm_gaps_gon250", r"< 23", 25), ("aln_param_free", r"i = 23", 25), ("main", r"c < 128", 129)]
 
-def instances(tier):
+def instances(tier, arr_ob="O2"):
     out = []
     common = dict(models=["models/vin.c", "models/msg.c", "models/ctype.c", "models/log_stub.c", "models/snprintf_model.c", "models/qsort.c", "models/str.c"], native_srcs=["lib/src/tldevel.c"], timeout=240, mem_gb=8)
     srcs = ["lib/src/msa_alloc.c", "lib/src/msa_op.c", "lib/src/alphabet.c", "lib/src/task.c", "lib/src/aln_mem.c", "lib/src/aln_param.c", "lib/src/msa_check.c"]
@@ -27,7 +27,7 @@ def instances(tier):
                         gi_args=(["--replace-calls", "detect_alphabet:vk_detect_alphabet"] if mode == 4 else []),
                         bound="life cycle %d with %d objects" % (mode, n), desc="paired allocation: no leak, no double free, no use after free", cost=10 * n, leak_check=True, **common))
     for n, l in ([(2, 2)] if tier == "quick" else [(2, 1), (2, 2), (3, 2), (2, 3)]):
-        out.append(Inst(ob="O2", name="arr_twice_n%d_l%d" % (n, l), harness="c16_arr.c", defs={"VK_N": n, "VK_L": l}, srcs=srcs, unwind=max(2 * n + 4, 12), unwind_pat=LIFE_UNW,
+        out.append(Inst(ob=arr_ob, name="arr_twice_n%d_l%d" % (n, l), harness="c16_arr.c", defs={"VK_N": n, "VK_L": l}, srcs=srcs, unwind=max(2 * n + 4, 12), unwind_pat=LIFE_UNW,
                         nb=n * l, ni=1, gi_args=["--replace-calls", "detect_alphabet:vk_detect_alphabet"], funcs=["kalign_arr_to_msa", "detect_aligned", "set_sip_nsip"],
                         bound="%d sequences of %d arbitrary 7-bit bytes, two independent runs" % (n, l), desc="array entry point is a function of its arguments (self-composition over nondet heap)", cost=20 * n, **common))
     # O1: --nondet-static twins of unit harnesses (a cache / static scratch buffer added to these units would be visible)
